@@ -3,7 +3,7 @@ From Coq Require Extraction ExtrOcamlBasic.
 From BpafModel Require Import Eval Wf Menu Console Process Shell Complete Help Docs Message Conv Derive.
 Extraction "model.ml" run_inner run_inner_state guard_menu parse_menu map_menu any_menu
   default_info default_help_arg default_version_arg convert tokenize split_os_argument
-  utf8_decode utf8_encode invariant_ok meta_of short_tables initial_state
+  utf8_decode utf8_encode invariant_ok check_invariants_ok meta_of short_tables initial_state
   render_console program_name render_zsh render_bash render_fish render_simple arg_matches cmd_matches complete
   render_help info_meta
   collect_html manpage_doc render_html render_markdown render_roff manpage_th
